@@ -60,6 +60,7 @@ type Contract struct {
 	Source        string
 	Results       []string // result names override
 	Fresh         []*Clause
+	Shares        []*Clause // internals of a fresh result that are deliberately not fresh (ownership handed over by the caller)
 	Hints         []*Clause
 	NoAlias       [][]string      // groups of parameters that callers must not alias with each other
 	Weak          map[string]bool // parameters whose type invariants are neither assumed nor required
@@ -445,7 +446,7 @@ func (db *SpecDB) loadFile(path string, pkgPath string, marker bool) error {
 				case "panics":
 					cur.Panics = append(cur.Panics, c)
 				}
-			case "modifies", "fresh":
+			case "modifies", "fresh", "shares":
 				c := &Clause{Kind: kw, Text: rest, Line: where}
 				for _, it := range splitList(rest) {
 					e, err := parseSpecExpr(it)
@@ -454,9 +455,12 @@ func (db *SpecDB) loadFile(path string, pkgPath string, marker bool) error {
 					}
 					c.Exprs = append(c.Exprs, e)
 				}
-				if kw == "modifies" {
+				switch kw {
+				case "modifies":
 					cur.Modifies = append(cur.Modifies, c)
-				} else {
+				case "shares":
+					cur.Shares = append(cur.Shares, c)
+				default:
 					cur.Fresh = append(cur.Fresh, c)
 				}
 			case "loop":
